@@ -224,6 +224,7 @@ type Ctx struct {
 	ufGlobals func(key string) bool
 	funDecls map[string]string
 	counters map[string]int
+	substTerm map[string]Term // defined name -> literal (case split by term substitution)
 }
 
 func newCtx() *Ctx {
@@ -277,6 +278,9 @@ func (c *Ctx) def(s *Sort, body string) Term {
 	}
 	key := s.String() + "|" + body
 	if t, ok := c.memo[key]; ok {
+		if lit, ok := c.substTerm[t.S]; ok {
+			return lit
+		}
 		return t
 	}
 	c.n++
